@@ -117,6 +117,41 @@ func checkC11(e *Env) {
 			}
 			emitGroup(grp)
 		})
+		// every decomposing code point and every combining mark once (16 per string), as
+		// passphrase and as free-form mnemonic, against its NFKD/NFC/NFD spellings
+		{
+			py := e.Py()
+			sweep := append(append([]rune(nil), g.decomp...), g.marks...)
+			packed := g.Packed(sweep, 16, 'x')
+			forms := map[string][]string{}
+			for _, f := range []string{"NFC", "NFD", "NFKC", "NFKD"} {
+				forms[f], _ = py.Normalize(f, packed)
+			}
+			for i, s := range packed {
+				gp := &c11group{lang: -1, kind: "code-point-sweep-passphrase", bm: "legal winner thank year wave sausage worth useful legal winner thank yellow", bp: s}
+				gm := &c11group{lang: -1, kind: "code-point-sweep-mnemonic", bm: s, bp: "pw"}
+				for _, f := range []string{"NFC", "NFD", "NFKC", "NFKD"} {
+					gp.variants = append(gp.variants, c11variant{m: gp.bm, p: forms[f][i], form: f})
+					if f == "NFKD" || f == "NFC" {
+						gm.variants = append(gm.variants, c11variant{m: forms[f][i], p: "pw", form: f})
+					}
+				}
+				emitGroup(gp)
+				emitGroup(gm)
+			}
+			// ASCII prefixes of every length before a character that NFKD changes
+			for k := 0; k <= 40; k++ {
+				c := string(g.pick(r, g.decomp))
+				s := strings.Repeat("a", k) + c + strings.Repeat("b", r.Intn(12))
+				n, _ := py.Normalize("NFKD", []string{s})
+				gp := &c11group{lang: -1, kind: "ascii-prefix-passphrase", bm: "zoo zoo zoo zoo zoo zoo zoo zoo zoo zoo zoo wrong", bp: s}
+				gp.variants = append(gp.variants, c11variant{m: gp.bm, p: n[0], form: "NFKD"})
+				emitGroup(gp)
+				gm := &c11group{lang: -1, kind: "ascii-prefix-mnemonic", bm: s, bp: ""}
+				gm.variants = append(gm.variants, c11variant{m: n[0], p: "", form: "NFKD"})
+				emitGroup(gm)
+			}
+		}
 		// passphrases (and mnemonic positions) from the combining/compatibility generators, two spellings
 		n := e.pick(400, 20000)
 		py := e.Py()
